@@ -12,6 +12,7 @@ import MTfitVerif.Model.Acceptance
 import MTfitVerif.Model.Proposal
 import MTfitVerif.Model.Chain
 import MTfitVerif.Model.Potency
+import MTfitVerif.Model.JobPool
 /- dispatch table of the executable model -/
 namespace MTfitVerif.Driver
 open MTfitVerif Proto
@@ -486,7 +487,40 @@ def opConv : P String := do
   | "mt6cd6" => do let cc ← flts 21; let m ← flts 6; done; pure (outFs (Potency.mt6cToD6 solveGauss cc m))
   | _ => pure "bad-op:conv"
 
+/-- `jobpool nworkers nevents (S id kind | T w id | F w | C id | K | X | P w)…`
+    → `ok|stuck:<index> numberJobs ntask nresult pills ncollected ids… nskipped ids… nworkers states…` -/
+def opJobPool : P String := do
+  let nw ← nat; let n ← nat
+  let evs ← many n (do
+    let k ← tok
+    match k with
+    | "S" => do
+      let id ← nat; let kd ← nat
+      pure (JobPool.Event.submit id (if kd == 0 then .ok else if kd == 1 then .raise else .code))
+    | "T" => do let w ← nat; let id ← nat; pure (JobPool.Event.take w id)
+    | "F" => do let w ← nat; pure (JobPool.Event.finish w)
+    | "C" => do let id ← nat; pure (JobPool.Event.collect id)
+    | "K" => pure JobPool.Event.clean
+    | "X" => pure JobPool.Event.close
+    | "P" => do let w ← nat; pure (JobPool.Event.takePill w)
+    | _ => throw "bad-op:event")
+  done
+  let (s, stuck, _) := evs.foldl (fun (acc : JobPool.State × Option Nat × Nat) e =>
+      match acc.2.1 with
+      | some _ => acc
+      | none =>
+        match JobPool.step acc.1 e with
+        | some s' => (s', none, acc.2.2 + 1)
+        | none => (acc.1, some acc.2.2, acc.2.2)) (JobPool.init nw, none, 0)
+  let st (w : JobPool.WState) : String := match w with
+    | .idle => "i" | .running _ => "r" | .dead => "d" | .exited => "x"
+  let head := match stuck with | none => "ok" | some i => s!"stuck:{i}"
+  pure (s!"{head} {s.numberJobs} {s.taskQ.length} {s.resultQ.length} {s.pills} {s.collected.length} " ++
+    " ".intercalate (s.collected.reverse.map toString) ++ s!" {s.skipped.length} " ++
+    " ".intercalate (s.skipped.reverse.map toString) ++ s!" {s.workers.length} " ++ " ".intercalate (s.workers.map st))
+
 def table : List (String × P String) := [
+  ("jobpool", opJobPool),
   ("conv", opConv),
   ("shift", opShift),
   ("transd", opTransD),
